@@ -270,9 +270,11 @@ def pp_case(lib):
 
         def args_fn(it):
             cell = [it.run_func(f_new, [])]
-            for L, p, src in segs:
+            for k, (L, p, src) in enumerate(segs):
                 org = none() if p is None else some(Tup([PathV(p), Struct('Range', [src, src + L])]))
-                it.run_func(f_push, [Ref(cell, 0), 'x' * L, org])
+                # the text starts with a byte order mark and holds multi-byte characters: it must reach the parser unchanged
+                content = ('\ufeff' + 'x' * (L - 3)) if k == 0 and L >= 3 else 'x' * L
+                it.run_func(f_push, [Ref(cell, 0), content, org])
             defs = Opaque('HashMap', HashMapV())
             s = {'pt': cell[0], 'defs': defs, 'inc': z3.Bool('allow_incomplete')}
             return [cell[0], defs, s['inc']], s
@@ -302,7 +304,7 @@ def pp_case(lib):
             elif pc[0][0] != want:
                 notes.append('%s with allow_incomplete=%s calls %s (expected %s)' % (name, inc_true, pc[0][0], want))
             span = pc[0][1][0]
-            if not (type(span) is Opaque and span.kind == 'Span' and span.data['text'] == 'x' * total):
+            if not (type(span) is Opaque and span.kind == 'Span' and span.data['text'] == '\ufeff' + 'x' * (total - 3)):
                 notes.append('%s does not parse the preprocessed text: %r' % (name, span))
             m = it.model_for()
             outcome = int(m.get('outcome', '0')) if m else 0
